@@ -86,7 +86,9 @@ theorem pump_batcher (fuel : Nat) (s : St) : (pump fuel s).batcher = s.batcher :
           · rw [ih]
           · split
             · rw [ih]
-            · rfl
+            · split
+              · rw [ih]
+              · rfl
       · split
         · rfl
         · split <;> rw [ih]
